@@ -168,6 +168,14 @@ def property_checks(inp):
             f = (numpy.arange(N) - c) * df
             ana = s * numpy.sqrt(2 * numpy.pi) * numpy.exp(-2 * (numpy.pi * s * f) ** 2)
             A(("%s Gaussian -> Gaussian/%s" % (tag, par), _err(mod.ft(g, d), ana.astype(complex)), 1e-4))
+        # homogeneity over the whole range of magnitudes (fields in physical units: 1e-18 W, 1e+20 photons): the transforms of
+        # c x are c times the transforms of x, the imaginary part included
+        if tag == "module":
+            for c_ in (1e-18, 1e-30, 1e18):
+                A(("transforms are homogeneous for the factor %g (1-D and 2-D, forward and inverse)" % c_,
+                   max(_err(mod.ft(c_ * x, d), c_ * mod.ft(x, d)), _err(mod.ift(c_ * x, df), c_ * mod.ift(x, df)),
+                       _err(mod.ft2(c_ * m, d), c_ * mod.ft2(m, d)), _err(mod.ift2(c_ * m, df), c_ * mod.ift2(m, df)),
+                       _err(mod.ift(mod.ft(c_ * x, d), df), c_ * x), _err(mod.ift2(mod.ft2(c_ * m, d), df), c_ * m)), 1e-9))
         # the same sample values stored in a narrow dtype (camera frames: uint8 / int16 / uint16, float32) with a Python-int
         # or float spacing are the same samples: the transform must be that of the float64 copy, nothing may wrap around
         if tag == "module":
